@@ -14,7 +14,7 @@ KDIR = os.path.join(D.VERIF, 'kani')
 HARNESSES = {
     'csi_dispatch_routes_every_final': dict(
         props=['C03', 'C05', 'C06', 'C07', 'C12', 'C13', 'C18', 'C01'],
-        what='csi_dispatch: every final byte 0x20..0x7e x params of length 0..2 (any u32) x private flag is routed to the documented listener method with the documented parameter positions (first=row, second=column); unknown finals call nothing; no panic'),
+        what='csi_dispatch: every final byte 0x20..0x7e x params of length 0..4 (any u32; list length is the stated bound) x private flag is routed to the documented listener method with the documented parameter positions (first=row, second=column); unknown finals call nothing; no panic'),
     'escape_dispatch_routes_every_final': dict(
         props=['C03', 'C15', 'C14', 'C06', 'C18', 'C01'],
         what='escape_dispatch: ESC c/D/E/M/H/7/8 -> reset/index/linefeed/reverse_index/set_tab_stop/save_cursor/restore_cursor; every other final byte calls nothing; no panic'),
@@ -51,7 +51,7 @@ def tree_hash(name=None):
     if name in DEPS:
         files = [os.path.join(D.REPO, 'src', f) for f in DEPS[name]]
     for p in files + [os.path.join(D.REPO, 'Cargo.toml')] + sorted(glob.glob(os.path.join(KDIR, 'src', '*.rs'))):
-        h.update(p.encode())
+        h.update(os.path.basename(p).encode())   # content-addressed: a private copy with the same text is the same input
         h.update(open(p, 'rb').read())
     return h.hexdigest()
 
@@ -83,8 +83,8 @@ def witness_for(name, out):
         return sum(b << (8 * i) for i, b in enumerate(v))
     try:
         if name.startswith('csi_dispatch'):
-            fin, p0, p1, ln, priv = vals[0][0], le(vals[1]), le(vals[2]), le(vals[3]), bool(vals[4][0])
-            params = [p0, p1][:ln]
+            fin, ps, ln, priv = vals[0][0], [le(v) for v in vals[1:5]], le(vals[5]), bool(vals[6][0])
+            params = ps[:ln]
             return dict(steps=[dict(dispatch='csi', final=chr(fin), params=params, private=priv)],
                         description='Kani counterexample for %s: final byte %r params %s private=%s' % (name, chr(fin), params, priv),
                         kani_values=vals)
